@@ -256,14 +256,34 @@ class Check(Property):
             if s in self.VALUES:
                 return u.Quantity(self.VALUES[s])
             if s[0].isdigit():
-                try:
-                    return int(s)
-                except ValueError:
-                    return Fraction(s)
+                return Fraction(s)      # the oracle runs on the Fraction registry, which reads every literal as Fraction
             return u.Quantity(1, s)
         if t[0] == "neg":
             return self.eval_tree(u, t[1]) * -1
         return PYOP[t[1]](self.eval_tree(u, t[2]), self.eval_tree(u, t[3]))
+
+    def cheap(self, t):
+        """float shadow evaluation: is exact arithmetic on this tree cheap (no huge or deeply fractional powers)?"""
+        def ev(t):
+            if t[0] == "leaf":
+                s = t[1]
+                if s in self.VALUES:
+                    return float(self.VALUES[s])
+                return float(s) if s[0].isdigit() else 1.0
+            if t[0] == "neg":
+                return -ev(t[1])
+            a, b = ev(t[2]), ev(t[3])
+            if t[1] in ("**", "^"):
+                if abs(b) > 40 or abs(a) > 1e6 or (a != 0 and abs(a) < 1e-6):
+                    raise OverflowError
+                return abs(a) ** b if a else 0.0
+            if t[1] in ("/", "//", "%"):
+                return a / b if b else 1.0
+            return {"+": a + b, "-": a - b, "*": a * b}.get(t[1], a * b)
+        try:
+            return abs(ev(t)) < 1e60
+        except (OverflowError, ZeroDivisionError, ValueError):
+            return False
 
     def oracle(self, c):
         if not _hook_installed:
@@ -293,6 +313,10 @@ class Check(Property):
         if norm(got_tree) != norm(want_tree):
             v.append(f"C07 {s!r}: parsed as {got_tree}, Python reading is {want_tree}")
         # value
+        if not self.cheap(c["t"]):
+            self.bump("value comparison skipped (huge power)")
+            return v
+
         def run(fn):
             try:
                 return ("ok", fn())
@@ -307,7 +331,9 @@ class Check(Property):
         if AUDIT["events"]:
             v.append(f"C07 {s!r}: parsing triggered {sorted(set(AUDIT['events']))}")
         r2 = run(lambda: self.eval_tree(u, c["t"]))
-        if r1[0] != r2[0]:
+        if r2 == ("err", "Other:OverflowError") or r2 == ("err", "Other:MemoryError"):
+            pass        # the oracle's own arithmetic overflowed: inconclusive, the structure was compared above
+        elif r1[0] != r2[0]:
             if not (r1[0] == "err" and r2[0] == "err"):
                 v.append(f"C07 {s!r}: parse_expression gives {r1}, Python operators on the tree give {r2}")
         elif r1[0] == "ok":
